@@ -47,10 +47,12 @@ const (
 	opOwnedTeardown
 	opSafeModify
 	opUWCTD // expected phase tearing down
+	opUWCSame    // idempotent mutator: every caller sets the same label
+	opModifySame // ModifyWithResult with the same idempotent mutator
 	nOps
 )
 
-var opNames = [...]string{"uwc", "uwc-foreign", "uwc-anyphase", "uwc-noop", "uwc-fail", "modify", "addfin", "rmfin", "teardown", "destroy", "owned-modify", "owned-teardown", "safe-modify", "uwc-expectTD"}
+var opNames = [...]string{"uwc", "uwc-foreign", "uwc-anyphase", "uwc-noop", "uwc-fail", "modify", "addfin", "rmfin", "teardown", "destroy", "owned-modify", "owned-teardown", "safe-modify", "uwc-expectTD", "uwc-sametag", "modify-sametag"}
 
 var errMutator = errors.New("mutator failed")
 
@@ -68,7 +70,12 @@ type call struct {
 	logEnd   int
 }
 
-func (c *call) tag() string { return fmt.Sprintf("t%d", c.idx) }
+func (c *call) tag() string {
+	if c.kind == opUWCSame || c.kind == opModifySame {
+		return "same"
+	}
+	return fmt.Sprintf("t%d", c.idx)
+}
 func (c *call) fin() string { return fmt.Sprintf("f%d", c.idx) }
 
 func ptr() resource.Pointer { return hx.IntPtr("r") }
@@ -81,6 +88,10 @@ func (c *call) run(ctx context.Context, st state.State) {
 	switch c.kind {
 	case opUWC:
 		c.ret, c.err = st.UpdateWithConflicts(ctx, ptr(), addTag, state.WithUpdateOwner(ownerOK))
+	case opUWCSame:
+		c.ret, c.err = st.UpdateWithConflicts(ctx, ptr(), addTag, state.WithUpdateOwner(ownerOK))
+	case opModifySame:
+		c.ret, c.err = st.ModifyWithResult(ctx, conformance.NewIntResource(hx.NS, "r", 7), addTag, state.WithUpdateOwner(ownerOK))
 	case opUWCForeign:
 		c.ret, c.err = st.UpdateWithConflicts(ctx, ptr(), addTag, state.WithUpdateOwner(ownerBad))
 	case opUWCAnyPhase:
@@ -114,14 +125,14 @@ func (c *call) run(ctx context.Context, st state.State) {
 }
 
 func (c *call) isModify() bool {
-	return c.kind == opModify || c.kind == opSafeModify || c.kind == opOwnedModify
+	return c.kind == opModify || c.kind == opSafeModify || c.kind == opOwnedModify || c.kind == opModifySame
 }
 func (c *call) isTeardown() bool { return c.kind == opTeardown || c.kind == opOwnedTeardown }
 
 // addsTag reports whether a successful call must have its tag in the store.
 func (c *call) addsTag() bool {
 	switch c.kind {
-	case opUWC, opUWCAnyPhase, opUWCTD, opModify, opSafeModify, opOwnedModify:
+	case opUWC, opUWCAnyPhase, opUWCTD, opModify, opSafeModify, opOwnedModify, opUWCSame, opModifySame:
 		return true
 	}
 	return false
@@ -130,7 +141,7 @@ func (c *call) addsTag() bool {
 // phaseOK reports whether the call may commit on top of a state with phase p.
 func (c *call) phaseOK(p resource.Phase) bool {
 	switch c.kind {
-	case opUWC, opUWCForeign, opUWCNoop, opUWCFail, opModify, opSafeModify, opOwnedModify, opTeardown, opOwnedTeardown:
+	case opUWC, opUWCForeign, opUWCNoop, opUWCFail, opModify, opSafeModify, opOwnedModify, opTeardown, opOwnedTeardown, opUWCSame, opModifySame:
 		return p == resource.PhaseRunning
 	case opUWCTD:
 		return p == resource.PhaseTearingDown
@@ -401,6 +412,9 @@ func check(x *explore.X, st state.State, log *hx.Log, base int, calls []*call) {
 			if r == nil {
 				return c.kind == opDestroy
 			}
+			if !c.isTeardown() && !c.phaseOK(r.Metadata().Phase()) {
+				return false // the call must be explainable at a state in which its expected phase held
+			}
 			switch {
 			case c.addsTag():
 				return slices.Contains(labelsOf(r), c.tag())
@@ -418,8 +432,8 @@ func check(x *explore.X, st state.State, log *hx.Log, base int, calls []*call) {
 		if c.kind == opDestroy || !some(post) {
 			x.Failf("%s reported success without a commit and without its post-condition holding during the call (states %d)", who, len(states))
 		}
-		if c.ret != nil && !some(func(r resource.Resource) bool { return r != nil && hx.Snap(r) == hx.Snap(c.ret) }) {
-			x.Failf("%s returned %s which was never the committed state during the call", who, hx.Snap(c.ret))
+		if c.ret != nil && !some(func(r resource.Resource) bool { return r != nil && hx.Snap(r) == hx.Snap(c.ret) && post(r) }) {
+			x.Failf("%s reported success without a commit and returned %s, which is not a state that existed during the call and satisfied its expected phase and post-condition (a conflict retried into success?)", who, hx.Snap(c.ret))
 		}
 	}
 	// the log is the truth: fold == List
@@ -452,7 +466,7 @@ func build(tier string) []explore.Scenario {
 		}
 	}
 	if tier == "thorough" {
-		tri := []opKind{opUWC, opUWCAnyPhase, opUWCFail, opModify, opAddFin, opRmFin, opTeardown, opDestroy, opOwnedModify}
+		tri := []opKind{opUWC, opUWCAnyPhase, opUWCFail, opModify, opAddFin, opRmFin, opTeardown, opDestroy, opOwnedModify, opUWCSame, opModifySame}
 		for i, a := range tri {
 			for j := i; j < len(tri); j++ {
 				for k := j; k < len(tri); k++ {
@@ -463,7 +477,7 @@ func build(tier string) []explore.Scenario {
 			}
 		}
 	} else {
-		for _, t := range [][]opKind{{opUWC, opUWC, opUWC}, {opUWC, opAddFin, opTeardown}, {opModify, opModify, opDestroy}, {opAddFin, opRmFin, opTeardown}} {
+		for _, t := range [][]opKind{{opUWC, opUWC, opUWC}, {opUWC, opAddFin, opTeardown}, {opModify, opModify, opDestroy}, {opAddFin, opRmFin, opTeardown}, {opUWCSame, opUWCSame, opTeardown}, {opModifySame, opUWCSame, opTeardown}, {opUWCSame, opUWCSame, opDestroy}} {
 			out = append(out, scenario(t, initRunning, false, []int{0, 1, 2}))
 		}
 	}
@@ -474,7 +488,7 @@ func main() {
 	explore.Main(explore.Config{
 		Property:  "C04",
 		Technique: "stateless model checking of the real code under a controlled scheduler (iterative preemption bounding, unbounded for pairs), commit-log oracle",
-		Rule:      "one execution per schedule of N concurrent helper calls on one resource (all unordered pairs of 14 helper variants x 3 initial states, plus triples); non-trivial = schedule differs from the default run-to-completion order in at least one decision",
+		Rule:      "one execution per schedule of N concurrent helper calls on one resource (all unordered pairs of 16 helper variants x 3 initial states, plus triples); non-trivial = schedule differs from the default run-to-completion order in at least one decision",
 		Assume: []string{
 			"scheduling points before lock acquisitions, channel operations, atomics and ctx.Err reads; pure releases are not points",
 			"commit order = order of BackingStore.Put/Destroy calls made under the collection lock",
